@@ -435,7 +435,7 @@ def run_part2(case, ob, site):
 # ------------------------------------------------------------------------------------------
 # part 3: block-level faults
 
-FAULTS = ['second_driver', 'undriven', 'unconnected', 'foreign_wire', 'duplicate_name', 'stale_by_name', 'missing_by_name',
+FAULTS = ['second_driver', 'undriven', 'undriven_register', 'undriven_output', 'unconnected', 'foreign_wire', 'duplicate_name', 'stale_by_name', 'missing_by_name',
           'sync_mem_comb_addr', 'comb_cycle', 'isolated_ring', 'mem_cycle', 'bad_arity', 'bad_width']
 CYCLES = ('comb_cycle', 'isolated_ring', 'mem_cycle')   # detected by iteration (simulator construction), not by sanity_check alone
 
@@ -500,6 +500,20 @@ def inject(block, fault, fsite):
             for n in nets:
                 readers.update(n.args)
             cand = [n for n in inner if n.dests[0] in readers]
+            if fsite >= len(cand):
+                return False
+            block.logic.remove(cand[fsite])
+        elif fault == 'undriven_register':
+            # the net that latches a register which other logic reads is removed (the Register object keeps its .next)
+            readers = set()
+            for n in nets:
+                readers.update(n.args)
+            cand = [n for n in nets if n.op == 'r' and n.dests[0] in readers]
+            if fsite >= len(cand):
+                return False
+            block.logic.remove(cand[fsite])
+        elif fault == 'undriven_output':
+            cand = [n for n in nets if n.dests and isinstance(n.dests[0], pyrtl.Output)]
             if fsite >= len(cand):
                 return False
             block.logic.remove(cand[fsite])
